@@ -8,6 +8,7 @@ from vlib import cgen, ref
 from vlib.harness import SubCheck, must, require
 
 PROPERTY_ID = "C08"
+TECHNIQUE = 'property-based testing (Hypothesis) against a numpy reference (adjoint, block structure for every control position, layer/ancilla bookkeeping)'
 RULE = (
     "Gate circuits as in C01 (n<=4, <=5 ops quick; built-ins, custom unitaries, dagger/controlled/"
     "integer-power wrappers, exp wrappers for the adjoint law only), every control position 0..n, "
